@@ -167,7 +167,7 @@ func H_C16(kind, coding, provider, wmode, ctmode, hist int) {
 	n, s := v16Value("v")
 	chunks, wct := v16Write(kind, wmode, n, s)
 	verifObserveStr("written-content-type", wct)
-	verifAssert(wct == v16Mime(kind), "C16: the entity writer did not label the entity with its media type")
+	// (what the writer calls its output is C05's business; here the request simply repeats it)
 
 	ct := wct
 	switch ctmode {
